@@ -220,7 +220,7 @@ pub fn gen_marker_program(rng: &mut Rng) -> MarkerProgram {
         0,
     );
     layout.boundaries = super::c03::statement_boundaries(&toks, &g.stmt_starts);
-    layout.ml_at_boundary = rng.chance(1, 7);
+    layout.ml_at_boundary = rng.chance(1, 3);
     layout.doc_blocks = *rng.pick(&[0u32, 150, 400]);
     MarkerProgram { code: lay_out(rng, &toks, &layout), f32_possible: layout.ml_at_boundary }
 }
@@ -365,6 +365,117 @@ fn oracle_fails(code: &str, config: &str, shift: usize) -> Option<String> {
     marker_failure(code, &out, shift, config.contains("compute_expression"))
 }
 
+/// What is known about the statements of a program with respect to the two defects of
+/// `Block::remove_statement` (`None` = not determined, fall back to a textual over-approximation).
+#[derive(Debug, Clone, Copy, Default)]
+pub struct RemovalFlags {
+    /// F32: a (the) removable statement carries a comment that spans several lines
+    pub multiline_comment: Option<bool>,
+    /// F34: its comments would be re-attached out of order (two consecutive comments two or more
+    /// lines apart, and the next token has leading trivia of its own)
+    pub out_of_order: Option<bool>,
+}
+
+type TriviaInfo = (darklua_core::nodes::TriviaKind, String, Option<usize>);
+
+/// The inputs of `Block::remove_statement(index)` read from the real tokens: the kept trivia of
+/// the statement (leading of its first token, trailing of its semicolon or last token, without
+/// whitespace) and the leading trivia of the token they move to.
+fn attach_info(block: &darklua_core::nodes::Block, index: usize, code: &str) -> (Vec<TriviaInfo>, Vec<TriviaInfo>) {
+    use darklua_core::nodes::TriviaKind;
+    let read = |t: &darklua_core::nodes::Trivia| (t.kind(), t.try_read().map(|s| s.to_owned()).unwrap_or_else(|| t.read(code).to_owned()), t.get_line_number());
+    let mut scratch = block.clone();
+    let statements_len = scratch.statements_len();
+    let semicolon_trailing: Option<Vec<TriviaInfo>> = scratch.get_tokens().and_then(|tokens| {
+        if tokens.semicolons.len() == statements_len {
+            tokens.semicolons[index].as_ref().map(|s| s.iter_trailing_trivia().map(read).collect())
+        } else {
+            None
+        }
+    });
+    let mut cs: Vec<TriviaInfo> = Vec::new();
+    let mut own: Vec<TriviaInfo> = Vec::new();
+    let mut has_next = false;
+    for (i, statement) in scratch.iter_mut_statements().enumerate() {
+        if i == index {
+            cs.extend(statement.mutate_first_token().iter_leading_trivia().map(read));
+            match &semicolon_trailing {
+                Some(t) => cs.extend(t.iter().cloned()),
+                None => cs.extend(statement.mutate_last_token().iter_trailing_trivia().map(read)),
+            }
+        } else if i == index + 1 {
+            has_next = true;
+            own.extend(statement.mutate_first_token().iter_leading_trivia().map(read));
+        }
+    }
+    if !has_next {
+        if let Some(last) = scratch.mutate_last_statement() {
+            own.extend(last.mutate_first_token().iter_leading_trivia().map(read));
+        } else if let Some(token) = scratch.get_tokens().and_then(|t| t.final_token.as_ref()) {
+            own.extend(token.iter_leading_trivia().map(read));
+        }
+    }
+    cs.retain(|(k, _, _)| *k != TriviaKind::Whitespace);
+    (cs, own)
+}
+
+fn flags_of(cs: &[TriviaInfo], own: &[TriviaInfo]) -> (bool, bool) {
+    let multiline = cs.iter().any(|(_, text, _)| text.contains('\n'));
+    let lines: Vec<usize> = cs.iter().filter_map(|(_, _, l)| *l).collect();
+    let wide_gap = lines.windows(2).any(|w| w[1].saturating_sub(w[0]) >= 2);
+    (multiline, wide_gap && !own.is_empty())
+}
+
+/// Flags of ONE statement of the top-level block.
+pub fn removal_flags_at(code: &str, index: usize) -> RemovalFlags {
+    let parsed = std::panic::catch_unwind(|| darklua_core::Parser::default().preserve_tokens().parse(code));
+    match parsed {
+        Ok(Ok(block)) if index < block.statements_len() => {
+            let (cs, own) = attach_info(&block, index, code);
+            let (m, o) = flags_of(&cs, &own);
+            RemovalFlags { multiline_comment: Some(m), out_of_order: Some(o) }
+        }
+        _ => RemovalFlags::default(),
+    }
+}
+
+struct FlagCollector<'a> {
+    code: &'a str,
+    multiline: bool,
+    out_of_order: bool,
+}
+
+impl darklua_core::process::NodeProcessor for FlagCollector<'_> {
+    fn process_block(&mut self, block: &mut darklua_core::nodes::Block) {
+        for index in 0..block.statements_len() {
+            let (cs, own) = attach_info(block, index, self.code);
+            let (m, o) = flags_of(&cs, &own);
+            self.multiline |= m;
+            self.out_of_order |= o;
+        }
+    }
+}
+
+/// Flags over EVERY statement of every block of a program (which statements a pipeline removes
+/// is not known in advance): true if some statement is in the respective shape.
+pub fn removal_flags_any(code: &str) -> RemovalFlags {
+    use darklua_core::process::{DefaultVisitor, NodeVisitor};
+    let parsed = std::panic::catch_unwind(|| darklua_core::Parser::default().preserve_tokens().parse(code));
+    match parsed {
+        Ok(Ok(mut block)) => {
+            let mut collector = FlagCollector { code, multiline: false, out_of_order: false };
+            let walked = std::panic::catch_unwind(std::panic::AssertUnwindSafe(|| {
+                DefaultVisitor::visit_block(&mut block, &mut collector);
+            }));
+            if walked.is_err() {
+                return RemovalFlags::default();
+            }
+            RemovalFlags { multiline_comment: Some(collector.multiline), out_of_order: Some(collector.out_of_order) }
+        }
+        _ => RemovalFlags::default(),
+    }
+}
+
 /// `function a.b:c(` somewhere in the text (over-approximation: a `:` between `function` and the
 /// next `(`).
 fn has_method_definition(code: &str) -> bool {
@@ -407,7 +518,7 @@ fn known_region(
     code: &str,
     rules: &[String],
     known: &[Value],
-    f32_possible: Option<bool>,
+    flags: RemovalFlags,
 ) -> Vec<(String, Option<Vec<String>>)> {
     let mut regions = Vec::new();
     for k in known {
@@ -426,7 +537,7 @@ fn known_region(
             // directed family decides this per removed statement, the random generator only places
             // such comments between statements in flagged programs; an input of unknown origin
             // (replay without the flag) falls back to "some block comment spans lines".
-            match f32_possible {
+            match flags.multiline_comment {
                 Some(false) => continue,
                 Some(true) => {}
                 None => {
@@ -434,6 +545,12 @@ fn known_region(
                         continue;
                     }
                 }
+            }
+        }
+        if region["when"].as_str() == Some("removed_statement_comments_out_of_order") {
+            // F34: decided from the real tokens (see `RemovalFlags`); unknown = not excused
+            if flags.out_of_order != Some(true) {
+                continue;
             }
         }
         if let Some(needle) = region["code_contains"].as_str() {
@@ -483,11 +600,12 @@ pub fn check_case(
     code: &str,
     pipeline: &Pipeline,
     known: &[Value],
-    f32_possible: Option<bool>,
+    flags: RemovalFlags,
 ) -> bool {
     let config = config_of(&pipeline.rules);
     let input = json!({"kind": "program", "code": code, "config": config, "shift": pipeline.shift,
-        "pipeline": pipeline.kind, "f32_possible": f32_possible});
+        "pipeline": pipeline.kind,
+        "removal_flags": {"multiline_comment": flags.multiline_comment, "out_of_order": flags.out_of_order}});
     let (out, trace) = match real_process(code, &config) {
         Ok(x) => x,
         Err(e) => {
@@ -513,7 +631,7 @@ pub fn check_case(
             return true;
         }
     };
-    let regions = known_region(code, &pipeline.rules, known, f32_possible);
+    let regions = known_region(code, &pipeline.rules, known, flags);
     let all_failures = marker_failures(code, &out, pipeline.shift, recomputes_literals(&pipeline.rules));
     let excused = |m: &String| regions.iter().any(|(_, names)| names.as_ref().map(|n| n.contains(m)).unwrap_or(true));
     let failure = all_failures.iter().find(|(m, _)| !excused(m)).map(|(_, what)| what.clone());
@@ -1074,12 +1192,23 @@ pub fn run(report: &mut Report, replay: Option<&str>) {
             return;
         }
         if let (Some(code), Some(config)) = (input["code"].as_str(), input["config"].as_str()) {
-            // the configuration text is replayed as is
+            // the configuration text is replayed as is; the removal flags recorded with the case
+            // (decided per removed statement for the directed family) are reused
             let shift = input["shift"].as_u64().unwrap_or(0) as usize;
+            let any = removal_flags_any(code);
+            let flags = RemovalFlags {
+                multiline_comment: input["removal_flags"]["multiline_comment"].as_bool().or(any.multiline_comment),
+                out_of_order: input["removal_flags"]["out_of_order"].as_bool().or(any.out_of_order),
+            };
+            let rules_text = config.trim().trim_start_matches("{rules: [").trim_end_matches("]}");
+            let rule_names: Vec<String> = vec![rules_text.to_owned()];
+            let regions = known_region(code, &rule_names, &known, flags);
             let mut acc = Acc::default();
             match real_process(code, config) {
                 Ok((out, _)) => {
-                    if let Some(f) = marker_failure(code, &out, shift, config.contains("compute_expression")) {
+                    let failures = marker_failures(code, &out, shift, config.contains("compute_expression"));
+                    let excused = |m: &String| regions.iter().any(|(_, names)| names.as_ref().map(|n| n.contains(m)).unwrap_or(true));
+                    if let Some((_, f)) = failures.iter().find(|(m, _)| !excused(m)) {
                         acc.violation(Violation {
                             kind: "oracle".into(),
                             check: "marker-line".into(),
@@ -1175,7 +1304,7 @@ pub fn run(report: &mut Report, replay: Option<&str>) {
     let mut acc = Acc::default();
     for (code, rules, shift) in FIXED {
         let p = Pipeline { kind: "fixed", rules: rules.iter().map(|r| (*r).to_owned()).collect(), shift: *shift };
-        if !check_case(&mut acc, &mut model, code, &p, &known, None) {
+        if !check_case(&mut acc, &mut model, code, &p, &known, removal_flags_any(code)) {
             acc.notes.push(format!("fixed program not processed: {:?}", code));
         }
     }
@@ -1193,7 +1322,7 @@ pub fn run(report: &mut Report, replay: Option<&str>) {
                             rules: rules.iter().filter_map(|r| r.as_str().map(|s| s.to_owned())).collect(),
                             shift: v["shift"].as_u64().unwrap_or(0) as usize,
                         };
-                        check_case(&mut acc, &mut model, code, &p, &known, v["f32_possible"].as_bool());
+                        check_case(&mut acc, &mut model, code, &p, &known, removal_flags_any(code));
                         acc.count("corpus_cases", 1);
                     }
                 }
@@ -1209,13 +1338,25 @@ pub fn run(report: &mut Report, replay: Option<&str>) {
         if let Some(index) = removal.removed_index {
             check_reattach(&mut acc, &mut model, &removal.code, index);
         }
+        // the region of F32 / F34 is decided for the removed statement itself, from the real tokens
+        let flags = match removal.removed_index {
+            Some(index) => removal_flags_at(&removal.code, index),
+            None => removal_flags_any(&removal.code),
+        };
+        if removal.removed_index.is_some() && flags.multiline_comment != Some(removal.f32) {
+            // (a type declaration's trailing comment is not reachable through mutate_last_token, so
+            // it is not re-attached: the tokens, not the generator, decide)
+            acc.hist("directed removal", "generator and tokens disagree on `multi-line comment attached` (tokens decide)");
+        }
         for p in removal_pipelines(removal.rule, &defaults) {
-            if !check_case(&mut acc, &mut model, &removal.code, &p, &known, Some(removal.f32)) {
+            if !check_case(&mut acc, &mut model, &removal.code, &p, &known, flags) {
                 acc.notes.push(format!("directed removal not processed: {:?}", removal.code));
                 break;
             }
         }
-        acc.hist("directed removal", &format!("{}{}", removal.rule, if removal.f32 { " (multi-line comment attached: F32 region)" } else { "" }));
+        acc.hist("directed removal", &format!("{}{}{}", removal.rule,
+            if flags.multiline_comment == Some(true) { " (multi-line comment attached: F32 region)" } else { "" },
+            if flags.out_of_order == Some(true) { " (re-attached out of order: F34 region)" } else { "" }));
         if i == 0 {
             acc.sample(json!({"directed_removal": removal.code, "rule": removal.rule, "shape": removal.shape}));
         }
@@ -1258,9 +1399,10 @@ pub fn run(report: &mut Report, replay: Option<&str>) {
                     }
                     let program = gen_marker_program(&mut rng);
                     let code = program.code;
+                    let flags = removal_flags_any(&code);
                     for _ in 0..pipelines_per_program {
                         let p = gen_pipeline(&mut rng, &defaults);
-                        if !check_case(&mut local, &mut model, &code, &p, &known, Some(program.f32_possible)) {
+                        if !check_case(&mut local, &mut model, &code, &p, &known, flags) {
                             break;
                         }
                         if local.samples.is_empty() && code.len() < 160 {
